@@ -24,6 +24,11 @@ Proof.
     try reflexivity; unfold member_written, ext_ltb in A; destruct n, l; cbn in *; try discriminate; lia.
 Qed.
 
+(** hier.py _get_member_pairs: the cycle guard knows the ancestors of a member only, so the
+    document is a function of the value alone (as [o2d] is), shared instances included *)
+Lemma cycle_guard_spec : cycle_guard_per_branch = true.
+Proof. reflexivity. Qed.
+
 (** hier.py _object_to_doc: a single-occurrence Array class is unwrapped, a repeated one is not *)
 Lemma strip_cond_single : strip_cond true (Fin 1) (Fin 1) = true.
 Proof. reflexivity. Qed.
